@@ -118,6 +118,98 @@ pub fn body(c: &Case) -> Result<(), String> {
     }
 }
 
+// --- the same faults on messages that carry (almost) as many attachments as one message can -----
+
+#[derive(Clone, Debug, Serialize, Deserialize)]
+pub struct ManyCase {
+    pub mask: u64,
+    pub shape: Shape,
+    /// attachments in total
+    pub count: usize,
+    /// how many of them are regions (the last ones)
+    pub regions: usize,
+    pub fake_sndbuf: Option<usize>,
+}
+
+type ManyMsg = (Vec<u8>, Vec<IpcSender<u32>>, Vec<IpcSharedMemory>);
+
+pub fn many_body(c: &ManyCase) -> Result<(), String> {
+    let (tx, rx) = ipc::channel::<ManyMsg>().map_err(|e| e.to_string())?;
+    let len = data_len(c.shape);
+    let data = pattern(len, c.mask + 77);
+    let mut senders = Vec::new();
+    let mut probes = Vec::new();
+    for _ in 0..(c.count - c.regions) {
+        let (t, r) = ipc::channel::<u32>().map_err(|e| e.to_string())?;
+        senders.push(t);
+        probes.push(r);
+    }
+    let regions: Vec<IpcSharedMemory> = (0..c.regions).map(|i| IpcSharedMemory::from_bytes(&[i as u8 + 1; 300])).collect();
+    let reader = std::thread::spawn(move || {
+        let first = rx.recv();
+        let second = match &first {
+            Ok(_) => Some(rx.recv()),
+            Err(_) => None,
+        };
+        (first, second)
+    });
+    interpose::arm();
+    let r = tx.send((data.clone(), senders, regions));
+    let (attempts, _) = interpose::disarm();
+    obs(format!("send={} attempts={}", if r.is_ok() { "ok" } else { "err" }, attempts));
+    if r.is_err() {
+        return Ok(());
+    }
+    tx.send((vec![7u8; 33], vec![], vec![])).map_err(|e| format!("follow-on message failed after an accepted send: {}", e))?;
+    // (a receiver that hangs on an accepted message is reported as a deadlock by the scheduler)
+    let (first, second) = reader.join().map_err(|_| "reader panicked".to_string())?;
+    let (d, ss, regs) = first.map_err(|e| format!("send returned Ok but the receiver got an error: {:?}", e))?;
+    if d.len() != len {
+        return Err(format!("send returned Ok for {} bytes but {} arrived", len, d.len()));
+    }
+    if let Some(p) = first_diff(&d, &data) {
+        return Err(format!("send returned Ok but the payload differs from offset {}", p));
+    }
+    if ss.len() != c.count - c.regions || regs.len() != c.regions {
+        return Err(format!("send returned Ok but {} senders and {} regions arrived instead of {} and {}", ss.len(), regs.len(), c.count - c.regions, c.regions));
+    }
+    for (i, s) in ss.iter().enumerate() {
+        s.send(9000 + i as u32).map_err(|e| format!("attached sender #{} does not work: {}", i, e))?;
+        match probes[i].try_recv() {
+            Ok(v) if v == 9000 + i as u32 => {},
+            other => return Err(format!("attached sender #{} is not the one that was sent at that position: {:?}", i, other)),
+        }
+    }
+    for (i, g) in regs.iter().enumerate() {
+        if &**g != &[i as u8 + 1; 300][..] {
+            return Err(format!("attached region #{} differs", i));
+        }
+    }
+    match second {
+        Some(Ok((d2, a, b))) if d2 == vec![7u8; 33] && a.is_empty() && b.is_empty() => Ok(()),
+        Some(Ok(_)) => Err("the follow-on message arrived altered (or the first one twice)".into()),
+        Some(Err(e)) => Err(format!("follow-on message lost after an accepted send: {:?}", e)),
+        None => Err("reader stopped early".into()),
+    }
+}
+
+pub fn many_cases(tier: Tier) -> Vec<ManyCase> {
+    let bits = if tier.is_quick() { 3 } else { 5 };
+    let mut v = Vec::new();
+    for fake in [Some(4608usize), None] {
+        for shape in [Shape::OneBig, Shape::P2] {
+            for count in [62usize, 63, 64] {
+                for regions in [0usize, 1, count] {
+                    for mask in 0..(1u64 << bits) {
+                        v.push(ManyCase { mask, shape, count, regions, fake_sndbuf: fake });
+                    }
+                }
+            }
+        }
+    }
+    v
+}
+
 pub fn cfg_of(c: &Case) -> Cfg {
     Cfg { sched: true, trace: true, fake_sndbuf: c.fake_sndbuf, enobufs_mask: c.mask, ..Default::default() }
 }
@@ -167,11 +259,32 @@ pub fn run(tier: Tier, _part: bool) -> i32 {
     for (c, e) in fails {
         rep.fail(&format!("{} :: {:?}", e, c), serde_json::to_value(&c).unwrap());
     }
+    let mcs = many_cases(tier);
+    let mut mfails = Vec::new();
+    sweep(&mcs, 120.0, &|c: &ManyCase| Cfg { sched: true, fake_sndbuf: c.fake_sndbuf, enobufs_mask: c.mask, ..Default::default() }, &many_body, &mut |_, c, out| {
+        n += 1;
+        match super::describe(out) {
+            Ok(o) => {
+                if o.contains("send=ok") {
+                    n_ok += 1;
+                } else {
+                    n_err += 1;
+                }
+                outcomes.insert(format!("many/{:?}/{}/{}/{:?}/{}", c.shape, c.count, c.regions, c.fake_sndbuf, o));
+            },
+            Err(e) if e.starts_with("MACHINERY") => rep.machinery(e),
+            Err(e) => mfails.push((c.clone(), e)),
+        }
+    });
+    for (c, e) in mfails {
+        rep.fail(&format!("{} :: {:?}", e, c), json!({"many": c}));
+    }
+    rep.set("many_attachment_cases", json!(mcs.len()));
     rep.set("evaluations", json!(n));
     rep.set("distinct_nontrivial", json!(outcomes.len()));
     rep.set("sends_accepted", json!(n_ok));
     rep.set("sends_refused", json!(n_err));
-    rep.set("rule", json!(format!("case = (ENOBUFS bitmask over the first {} transmission attempts of one send, shape in {{<=2000 B, one packet >2000 B, 2, 3, 6 packets}}, with/without sender+region attached, effective buffer 4608 / system default); all {} masks enumerated; distinct_nontrivial = distinct (shape, attachments, buffer, send result, number of attempts) outcomes observed", if tier.is_quick() { 7 } else { 12 }, if tier.is_quick() { 128 } else { 4096 })));
+    rep.set("rule", json!(format!("case = (ENOBUFS bitmask over the first {} transmission attempts of one send, shape in {{<=2000 B, one packet >2000 B, 2, 3, 6 packets}}, with/without sender+region attached, effective buffer 4608 / system default); all {} masks enumerated; plus the first 8 (32) masks on one-packet and two-packet messages carrying 62, 63 or 64 attachments (all senders, one region, all regions); distinct_nontrivial = distinct (shape, attachments, buffer, send result, number of attempts) outcomes observed", if tier.is_quick() { 7 } else { 12 }, if tier.is_quick() { 128 } else { 4096 })));
     rep.set("exhaustive", json!(true));
     rep.sample(serde_json::to_value(&cs[cs.len() / 3]).unwrap());
     rep.sample(serde_json::to_value(&cs[cs.len() - 5]).unwrap());
@@ -181,6 +294,14 @@ pub fn run(tier: Tier, _part: bool) -> i32 {
 }
 
 pub fn replay(v: &Value) -> i32 {
+    if v.get("many").is_some() {
+        let Ok(c) = serde_json::from_value::<ManyCase>(v["many"].clone()) else { return 2 };
+        for r in 0..2 {
+            let out = crate::exec::run_one(&Cfg { sched: true, fake_sndbuf: c.fake_sndbuf, enobufs_mask: c.mask, ..Default::default() }, 120.0, &|| many_body(&c));
+            println!("replay round {}: {:?} -> {:?}", r, c, super::describe(&out));
+        }
+        return 0;
+    }
     let Ok(c) = serde_json::from_value::<Case>(v.clone()) else { return 2 };
     for r in 0..2 {
         let out = crate::exec::run_one(&cfg_of(&c), 120.0, &|| body(&c));
